@@ -32,11 +32,11 @@ PROJ = {
     "C01": None,
     "C02": {"write", "canproceed", "proceed", "cwrite", "cbwrite", "cfinished", "hdr"},
     "C03": {"bwrite", "bwriten", "canproceed", "proceed", "chunked?"},
-    "C04": {"bwrite", "bwriten", "direct", "canproceed", "proceed"},
+    "C04": {"bwrite", "bwriten", "direct", "canproceed", "proceed", "cbwrite", "cfinished", "cinto"},
     "C05": {"resp", "cresp", "parse-resp", "canproceed"},
-    "C06": {"resp", "mode", "proceed", "cresp", "cbody"},
+    "C06": {"resp", "mode", "proceed", "cresp", "cbody", "bread", "canproceed"},
     "C07": {"bread", "canproceed", "boundary", "proceed", "stopb", "cread", "cended"},
-    "C08": {"bread", "canproceed", "proceed", "mode", "close?"},
+    "C08": {"bread", "canproceed", "proceed", "mode", "close?", "cread", "cended", "cbody", "cresp"},
     "C09": None,
     "C10": {"close?", "reason", "new", "resp", "read100", "proceed"},
     "C11": {"read100", "keep100", "proceed", "resp", "canproceed", "close?"},
